@@ -206,6 +206,16 @@ def _tm_histories(sp, tmm, check_pus_crc, Service17Tm, c, stamp, src, want, wo, 
         fresh2.calc_crc()
         eq(devs, f"hist.{tag}.calc_crc", bytes(fresh2.crc16), want[-2:])
         eq(devs, f"hist.{tag}.pack", bytes(build_tm(tmm, c, stamp, src).pack()), want)
+    # documented defaults (APID 0, counts 0, destination 0, time reference 0, version 0, no source data): independent objects
+    d1 = tmm.PusTm(service=c["service"], subservice=c["subservice"], timestamp=stamp)
+    d2 = tmm.PusTm(service=c["service"], subservice=c["subservice"], timestamp=stamp)
+    wdef = RP.pus_tm(0, 0, c["service"], c["subservice"], 0, 0, 0, stamp, b"")
+    eq(devs, "hist.defaults.bytes", bytes(d1.pack()), wdef)
+    d1.to_space_packet()
+    d1.tm_data = bytearray(b"\x01\x02")
+    d1.pack()
+    eq(devs, "hist.defaults.second_object_unaffected", bytes(d2.pack()), wdef)
+    eq(devs, "hist.defaults.third_object_unaffected", bytes(tmm.PusTm(service=c["service"], subservice=c["subservice"], timestamp=stamp).pack()), wdef)
     c_src, c_stamp = bytearray(src), bytearray(stamp)
     t = build_tm(tmm, c, c_stamp, c_src)
     eq(devs, "hist.bytearray_inputs.view1", bytes(t.to_space_packet().pack()), want)
